@@ -39,10 +39,11 @@ def regenerate(only: list[str] | None = None) -> dict[str, dict]:
             changed = core.emit(out, body)
             res[out] = {"ok": True, "error": "", "changed": changed, "items": list(getattr(mod, "ITEMS", []))}
         except Exception as e:  # noqa
-            try:
-                os.remove(os.path.join(core.GEN_DIR, out))
-            except FileNotFoundError:
-                pass
+            for ext in (".v", ".vo", ".vok", ".vos", ".glob"):
+                try:
+                    os.remove(os.path.join(core.GEN_DIR, out[:-2] + ext))
+                except FileNotFoundError:
+                    pass
             res[out] = {"ok": False, "error": f"{type(e).__name__}: {e}", "changed": True,
                         "items": list(getattr(mod, "ITEMS", [])), "trace": traceback.format_exc()}
     return res
